@@ -33,15 +33,13 @@ impl MmapMut {
         panic!()
     }
 
-    fn copy_from_slice(&self, _: &[u8]) {
-        panic!()
-    }
 }
 
 pub struct Writer {
     cache: PathBuf,
     builder: IntegrityOpts,
     mmap: Option<MmapMut>,
+    mapped: usize,
     tmpfile: NamedTempFile,
 }
 
@@ -72,10 +70,17 @@ impl Writer {
             builder: IntegrityOpts::new().algorithm(algo),
             tmpfile,
             mmap,
+            mapped: 0,
         })
     }
 
-    pub fn close(self) -> Result<Integrity> {
+    pub fn close(mut self) -> Result<Integrity> {
+        finish_mapped(&mut self.mmap, self.mapped, &self.tmpfile).with_context(|| {
+            format!(
+                "Failed to set the final length of temp file at {}",
+                self.tmpfile.path().display()
+            )
+        })?;
         let sri = self.builder.result();
         let cpath = path::content_path(&self.cache, &sri);
         DirBuilder::new()
@@ -115,9 +120,8 @@ impl Writer {
 impl Write for Writer {
     fn write(&mut self, buf: &[u8]) -> std::io::Result<usize> {
         self.builder.input(buf);
-        if let Some(mmap) = &mut self.mmap {
-            mmap.copy_from_slice(buf);
-            Ok(buf.len())
+        if self.mmap.is_some() {
+            write_mapped(&mut self.mmap, &mut self.mapped, &mut self.tmpfile, buf)
         } else {
             self.tmpfile.write(buf)
         }
@@ -143,6 +147,7 @@ struct Inner {
     builder: IntegrityOpts,
     tmpfile: NamedTempFile,
     mmap: Option<MmapMut>,
+    mapped: usize,
     buf: Vec<u8>,
     last_op: Option<Operation>,
 }
@@ -177,6 +182,7 @@ impl AsyncWriter {
             cache: cache_path,
             builder: IntegrityOpts::new().algorithm(algo),
             mmap,
+            mapped: 0,
             tmpfile,
             buf: vec![],
             last_op: None,
@@ -197,20 +203,31 @@ impl AsyncWriter {
                         Some(inner) => {
                             let (s, r) = futures::channel::oneshot::channel();
                             let tmpfile = inner.tmpfile;
+                            let mut mmap = inner.mmap;
+                            let mapped = inner.mapped;
                             let sri = inner.builder.result();
                             let cpath = path::content_path(&inner.cache, &sri);
 
                             // Start the operation asynchronously.
-                            *state = State::Busy(crate::async_lib::spawn_blocking(|| {
-                                let res = std::fs::DirBuilder::new()
-                                    .recursive(true)
-                                    // Safe unwrap. cpath always has multiple segments
-                                    .create(cpath.parent().unwrap())
+                            *state = State::Busy(crate::async_lib::spawn_blocking(move || {
+                                let res = finish_mapped(&mut mmap, mapped, &tmpfile)
                                     .with_context(|| {
                                         format!(
-                                            "building directory {} failed",
-                                            cpath.parent().unwrap().display()
+                                            "setting the final length of {} failed",
+                                            tmpfile.path().display()
                                         )
+                                    })
+                                    .and_then(|_| {
+                                        std::fs::DirBuilder::new()
+                                            .recursive(true)
+                                            // Safe unwrap. cpath always has multiple segments
+                                            .create(cpath.parent().unwrap())
+                                            .with_context(|| {
+                                                format!(
+                                                    "building directory {} failed",
+                                                    cpath.parent().unwrap().display()
+                                                )
+                                            })
                                     });
                                 if res.is_err() {
                                     let _ = s.send(res.map(|_| sri));
@@ -307,9 +324,14 @@ impl AsyncWrite for AsyncWriter {
                         // Start the operation asynchronously.
                         *state = State::Busy(crate::async_lib::spawn_blocking(|| {
                             inner.builder.input(&inner.buf);
-                            if let Some(mmap) = &mut inner.mmap {
-                                mmap.copy_from_slice(&inner.buf);
-                                inner.last_op = Some(Operation::Write(Ok(inner.buf.len())));
+                            if inner.mmap.is_some() {
+                                let res = write_mapped(
+                                    &mut inner.mmap,
+                                    &mut inner.mapped,
+                                    &mut inner.tmpfile,
+                                    &inner.buf,
+                                );
+                                inner.last_op = Some(Operation::Write(res));
                                 State::Idle(Some(inner))
                             } else {
                                 let res = inner.tmpfile.write(&inner.buf);
@@ -438,6 +460,69 @@ fn make_mmap(tmpfile: &mut NamedTempFile, size: Option<usize>) -> Result<Option<
     } else {
         Ok(None)
     }
+}
+
+// Copies `buf` into the mapping at offset `*pos`. The mapping has exactly the
+// declared size; if the caller supplies more than that, the mapping is given
+// up and the remaining data is written to the file itself, so that the file
+// always holds every byte that was hashed.
+#[cfg(feature = "mmap")]
+fn write_mapped(
+    mmap: &mut Option<MmapMut>,
+    pos: &mut usize,
+    tmpfile: &mut NamedTempFile,
+    buf: &[u8],
+) -> std::io::Result<usize> {
+    use std::io::{Seek, SeekFrom};
+
+    match mmap {
+        Some(map) if buf.len() <= map.len() - *pos => {
+            map[*pos..*pos + buf.len()].copy_from_slice(buf);
+            *pos += buf.len();
+        }
+        _ => {
+            if let Some(map) = mmap.take() {
+                map.flush()?;
+            }
+            tmpfile.seek(SeekFrom::Start(*pos as u64))?;
+            tmpfile.write_all(buf)?;
+            *pos += buf.len();
+        }
+    }
+    Ok(buf.len())
+}
+
+#[cfg(not(feature = "mmap"))]
+fn write_mapped(
+    _: &mut Option<MmapMut>,
+    _: &mut usize,
+    tmpfile: &mut NamedTempFile,
+    buf: &[u8],
+) -> std::io::Result<usize> {
+    tmpfile.write(buf)
+}
+
+// The file behind a mapping was preallocated to the declared size. If fewer
+// bytes than that were written, cut it back to what was actually written.
+#[cfg(feature = "mmap")]
+fn finish_mapped(
+    mmap: &mut Option<MmapMut>,
+    pos: usize,
+    tmpfile: &NamedTempFile,
+) -> std::io::Result<()> {
+    if let Some(map) = mmap.take() {
+        let len = map.len();
+        drop(map);
+        if pos < len {
+            tmpfile.as_file().set_len(pos as u64)?;
+        }
+    }
+    Ok(())
+}
+
+#[cfg(not(feature = "mmap"))]
+fn finish_mapped(_: &mut Option<MmapMut>, _: usize, _: &NamedTempFile) -> std::io::Result<()> {
+    Ok(())
 }
 
 #[cfg(feature = "mmap")]
